@@ -468,6 +468,20 @@ def catalogue(big=False):
                                 call("INNER", binds={"x": split(ref("G", "ys")), "row": lit([7, 8, 9])}, mode="array")],
                                {"o": ref("INNER", "all")})], "TOP", {}))
 
+    # 13f'. ... the inner call mapped over the output of a stage inside the mapped pipeline (lengths
+    #       equal for every outer element: differing lengths are a recorded finding)
+    P.append(program("nestdyn_sum", [],
+                     [S_const("G", "int[] ns", {"ns": [2, 2, 2, 2]}), stage("MK2", "int n", "int[] arr", {"arr": {"k": "arrn", "src": "n"}}),
+                      S_echo("X"), S_echo("SUM", "int[]", "what", "all")],
+                     [pipeline("SUB", "int n", "int[] all",
+                               [call("MK2", binds={"n": self_("n")}),
+                                call("X", binds={"x": split(ref("MK2", "arr"))}, mode="array"),
+                                call("SUM", binds={"what": ref("X", "y")})],
+                               {"all": ref("SUM", "all")}),
+                      pipeline("TOP", "", "int[][] o",
+                               [call("G"), call("SUB", binds={"n": split(ref("G", "ns"))}, mode="array")],
+                               {"o": ref("SUB", "all")})], "TOP", {}))
+
     # 13g. a preflight stage inside a mapped sub-pipeline that takes the mapped element: one
     #      preflight job per fork, each fork's calls wait for (at least) their own
     P.append(program("preflight_forked", [], [stage("CHK", "int x", "", {}), S_echo("W")],
